@@ -240,7 +240,13 @@ func run(t *rapid.T, test string, wl workload) {
 		case "json":
 			prob = vlib.CheckJSONRecord(p, rec)
 		case "logfmt":
-			prob = vlib.CheckLogfmtRecord(p, rec, true)
+			hasErr := false
+			for _, a := range exp.attrs {
+				if _, ok := a.Val.V.(error); ok {
+					hasErr = true
+				}
+			}
+			prob = vlib.CheckLogfmtRecord(p, rec, hasErr && !vlib.ProductionMode())
 		default:
 			r := vlib.SimulateSGR(p)
 			first := strings.SplitN(r.Text, "\n", 2)[0]
@@ -262,6 +268,16 @@ func run(t *rapid.T, test string, wl workload) {
 			}
 			if r.DirtyAtEnd {
 				prob = &vlib.Problem{Msg: "colour still on at the end of the record"}
+			}
+			hasErr := false
+			for _, a := range exp.attrs {
+				if _, ok := a.Val.V.(error); ok {
+					hasErr = true
+				}
+			}
+			wantLines := 1 + strings.Count(exp.msg, "\n")
+			if gotLines := strings.Count(strings.TrimRight(r.Text, "\n"), "\n") + 1; !hasErr && gotLines != wantLines {
+				prob = &vlib.Problem{Msg: fmt.Sprintf("record has %d lines, the call's message has %d", gotLines, wantLines)}
 			}
 		}
 		if prob != nil {
